@@ -224,6 +224,7 @@ Lemma w_openat2_ok fz fd p fl m rs :
   okd Qfd (w_openat2 fz fd p fl m rs).
 Proof.
   intros Hfd Hm Hr. unfold w_openat2. rewrite (real_fd_valid _ Hfd). cbn [negb].
+  destruct (OPENAT2_NUL_EINVAL && has_nul p); [apply fail1_ok|].
   constructor.
   - split; [|reflexivity]. cbn [disc_b]. rewrite Hfd, Hm, Hr.
     replace (has (N.lor fl OPENAT2_FORCED) O_CLOEXEC) with true; [reflexivity|].
